@@ -200,8 +200,11 @@ async def _sim_call_and_capture_failure(handler, call):
         w.log_event("rpc_out", rid, call.name, "fail", result.qualname, result.message[:400])
         for m in w.monitors:
             m.on_rpc_failure(w, rid, call, result)
+            m.on_rpc_done(w, call, False)
     else:
         w.log_event("rpc_out", rid, call.name, "ok")
+        for m in w.monitors:
+            m.on_rpc_done(w, call, True)
     if task is not None:
         w.task_request.pop(id(task), None)
     return result
@@ -284,6 +287,47 @@ def _sim_makedirs_p(self, mode=0o777):
     return self
 
 
+# --- end-of-build report ----------------------------------------------------------------------------------------------
+
+
+async def _sim_report_unbuilt(workflow, scheduler, reporter):
+    w = _world()
+    if w is None or not w.monitors:
+        return await _orig["report_unbuilt"](workflow, scheduler, reporter)
+    from .dbview import take_snapshot
+
+    draining = bool(scheduler.draining)
+    async with workflow.db:
+        snap = take_snapshot(workflow.db._held.con)
+    w.pending_capture = None
+    rc = await _orig["report_unbuilt"](workflow, scheduler, reporter)
+    for m in w.monitors:
+        m.on_report_unbuilt(w, snap, draining, rc, w.pending_capture)
+    return rc
+
+
+def _sim_analyze_pending(workflow):
+    out = _orig["_analyze_pending"](workflow)
+    w = _world()
+    if w is not None:
+        w.pending_capture = out
+    return out
+
+
+# --- director wiring: keep a handle on the live components ------------------------------------------------------
+
+
+async def _sim_wire_director(**kwargs):
+    handler = await _orig["_wire_director"](**kwargs)
+    w = _world()
+    if w is not None:
+        w.handler = handler
+        w.serve_config = kwargs.get("config")
+        for m in w.monitors:
+            m.on_build_start(w)
+    return handler
+
+
 # --- install ---------------------------------------------------------------------------------------------------
 
 
@@ -341,6 +385,19 @@ def install():
     su_sqlite3.DBSession.__aexit__ = _sim_aexit
     _orig["DBSession._run"] = su_sqlite3.DBSession._run
     su_sqlite3.DBSession._run = _sim_run
+
+    from stepup.core import director as su_director
+
+    _orig["_wire_director"] = su_director._wire_director
+    su_director._wire_director = _sim_wire_director
+
+    from stepup.core import builder as su_builder
+    from stepup.core import pending as su_pending
+
+    _orig["report_unbuilt"] = su_builder.report_unbuilt
+    su_builder.report_unbuilt = _sim_report_unbuilt
+    _orig["_analyze_pending"] = su_pending._analyze_pending
+    su_pending._analyze_pending = _sim_analyze_pending
 
     _orig["Path.remove"] = Path.remove
     _orig["Path.remove_p"] = Path.remove_p
